@@ -17,6 +17,12 @@ CONTROLS = ['G1|<verif_controls::BadGroupBy<O, D, K, S> as Observer>::next', 'G2
 
 
 def check(cx):
+    _env_wrapped = True
+    from . import c03
+    return _check_own(cx) + c03.envelopes(cx, ID)
+
+
+def _check_own(cx):
     F = cx.facts
     res = []
     found = False
@@ -157,7 +163,7 @@ def check(cx):
     # its terminal on every path, also when the stream of groups reports finished early (same rule as C03.S1)
     from . import c03
     for f in c03.s1(cx):
-        if not f.key.startswith(('table:', 'floor')):
+        if not f.key.startswith(('table:', 'floor')) and (f.ok or ('still expected' in f.msg and ('complete' in f.msg or 'error' in f.msg))):
             res.append(Finding(ID, 'G6', f.key, f.ok, f.msg, f.loc, f.witness))
     # G7: a group is a Subject: its terminal broadcast reaches every live subscriber of the group (same rules as C06.J3/J4)
     from . import c06
